@@ -352,9 +352,10 @@ func (g *Gen) genC19(n int) error {
 		for k := 0; k < 2; k++ {
 			cfg := g.vecCfg()
 			cfg.minDocs = 2
-			if g.chance(0.15) {
-				cfg.minDocs, cfg.maxDocs = 400, 450 // clustered: Train is called
+			if g.chance(0.15) || (i == 1 && k == 0) {
+				cfg.minDocs, cfg.maxDocs = 900, 1000 // >= 1000 vectors in one field: clustered index, Train is called
 				cfg.maxFields = 0
+				cfg.vecOne = true
 			}
 			b := g.randBatch(g.fresh("b"), cfg)
 			g.emitBatch(b)
